@@ -200,6 +200,15 @@ def rule_handover(chk):
     loops = [n for n in cfg.live if n.kind == "for_next" and isinstance(n.ast.iter, ast.Name) and n.ast.iter.id == capname]
     if cap_is_destination:
         loops = [n for n in cfg.live if n.kind == "for_next" and unparse(n.ast.iter) == "%s.messages" % capname]
+    # the buffer's list may not be replaced during the hand-over: a sender that already holds the buffering destination appends to
+    # whatever list the destination has at that moment, and only the list being iterated is ever read again
+    detach = [n for n in cfg.live if isinstance(n.ast, ast.Assign) and n.kind != "test" and any(
+        isinstance(x, ast.Attribute) and isinstance(x.ctx, ast.Store) and x.attr == "messages" for t in n.ast.targets for x in ast.walk(t))]
+    if detach:
+        chk.bad("C12.handover", "Destinations.add:redelivers-from-the-live-buffer", chk.where(add, detach[0].lineno),
+                "`%s` gives the buffering destination a NEW list during the hand-over and re-delivers from the detached old one: a logging thread that had already fetched the buffering "
+                "destination inside send() appends its message to the new list, which nobody reads -- the message is lost" % detach[0].text()[:70])
+        return
     chk.need(len(loops) == 1, "Destinations.add: re-delivery loop over the captured list not found")
     head = loops[0]
     okorder = cfg.precedes([n for n, c in inst], [head])[0] and cfg.must_pass([cfg.entry], [n for n, c in inst], repl, avoid_edges={(ft, other)})[0]
